@@ -13,6 +13,7 @@ import (
 	appsTypes "github.com/pokt-network/pocket-core/x/apps/types"
 	nodesTypes "github.com/pokt-network/pocket-core/x/nodes/types"
 
+	"verif/harness"
 	"verif/harness/chain"
 )
 
@@ -411,4 +412,24 @@ func sortedKeys[T any](m map[string]T) []string {
 func renderApp(a appsTypes.Application) string {
 	return fmt.Sprintf("{%s %s jailed=%v stake=%s relays=%s chains=%v until=%s}", hx(a.Address)[:8], statusName(a.Status), a.Jailed, a.StakedTokens, a.MaxRelays,
 		a.Chains, a.UnstakingCompletionTime.UTC().Format(time.RFC3339))
+}
+
+// historicalAppLookup: the node also answers queries while the chain runs - now and then somebody looks an application up
+// at a past height through the RPC query route (historical context). That must leave the live records, the pools and the
+// outcome of every later transaction alone.
+func historicalAppLookup(rt *rapid.T, c *harness.Case, n *chain.Node) {
+	if n.Height <= 1 || !rapid.Bool().Draw(rt, "historicalLookup") {
+		return
+	}
+	recs := readApps(n)
+	addrs := sortedKeys(recs)
+	if len(addrs) == 0 {
+		return
+	}
+	a := addrs[rapid.IntRange(0, len(addrs)-1).Draw(rt, "lookupApp")]
+	qh := int64(rapid.IntRange(1, int(n.Height)-1).Draw(rt, "lookupHeight"))
+	pa := *n.App
+	_, _ = pa.QueryApp(a, qh)
+	c.Opf("  query application %s.. at past height %d", a[:8], qh)
+	c.Label("historical-application-lookup")
 }
